@@ -520,6 +520,22 @@ def gen_bms_doc(r: random.Random, hi: int = 6, layout: str | None = None, odd_te
         lines.sort(key=lambda x: (x[1], x[0]))
     else:
         r.shuffle(lines)
+    if not pipeline and r.random() < 0.2:
+        # object ids are two characters 0-9 A-Z a-z, matched as spelled: spell some (or all) letters in lower case,
+        # the same way in the #WAVxx / #BPMxx / #LNOBJ headers and in the data lines
+        every = r.random() < 0.5
+        seen_ids = sorted({v for m, ch, seq, n in lines if ch != b"03" for v in seq if v != b"00"}
+                          | {k[3:] for k, v in headers if len(k) == 5 and k[:3] in (b"WAV", b"BPM")}
+                          | {v for k, v in headers if k == b"LNOBJ"})
+        recase = {i: (i.lower() if every or r.random() < 0.5 else i) for i in seen_ids}
+        for h in headers:
+            if len(h[0]) == 5 and h[0][:3] in (b"WAV", b"BPM"):
+                h[0] = h[0][:3] + recase.get(h[0][3:], h[0][3:])
+            elif h[0] == b"LNOBJ":
+                h[1] = recase.get(h[1], h[1])
+        for ln in lines:
+            if ln[1] != b"03":
+                ln[2] = [recase.get(v, v) for v in ln[2]]
     return dict(headers=headers, lines=[[m, ch, b"".join(seq)] for m, ch, seq, n in lines]), layout
 
 
